@@ -193,6 +193,7 @@ func (a *NilAnalysis) edgeFacts(fn *ssa.Function, pred *ssa.BasicBlock, succ int
 		return
 	}
 	a.condFacts(fn, iff.Cond, succ == 0, f)
+	a.condNumFacts(iff.Cond, succ == 0, f)
 }
 
 func (a *NilAnalysis) condFacts(fn *ssa.Function, cond ssa.Value, taken bool, f nilFacts) {
@@ -294,11 +295,33 @@ func valueByName(fn *ssa.Function, name string) ssa.Value {
 
 func killBy(f nilFacts, pred func(k string) bool) {
 	for k := range f {
+		if strings.HasPrefix(k, "N|") || strings.HasPrefix(k, "NE|") {
+			continue // numeric facts mention registers only
+		}
+		if strings.HasPrefix(k, "E|") {
+			// "E|v:t3|K": dies when location K may be written
+			parts := strings.SplitN(k, "|", 3)
+			if pred(parts[2]) {
+				delete(f, k)
+			}
+			continue
+		}
 		if strings.HasPrefix(k, "v:") || strings.HasPrefix(k, "p:") && !strings.ContainsAny(k, ".[{") {
 			continue
 		}
 		if pred(k) {
 			delete(f, k)
+		}
+	}
+}
+
+// killE removes register/location equalities whose location satisfies pred.
+func killE(f nilFacts, pred func(K string) bool) {
+	for k := range f {
+		if strings.HasPrefix(k, "E|") {
+			if parts := strings.SplitN(k, "|", 3); pred(parts[2]) {
+				delete(f, k)
+			}
 		}
 	}
 }
@@ -318,6 +341,29 @@ func (a *NilAnalysis) transfer(fn *ssa.Function, ins ssa.Instruction, f nilFacts
 	switch x := ins.(type) {
 	case *ssa.Store:
 		L := a.loc(x.Addr)
+		// register/location equalities of the written location die whatever the stored type
+		switch ad := x.Addr.(type) {
+		case *ssa.FieldAddr:
+			suffix := "." + fieldName(ad.X.Type(), ad.Field)
+			killE(f, func(K string) bool {
+				return strings.HasSuffix(K, suffix) || strings.Contains(K, suffix+".") || strings.Contains(K, suffix+"[") || strings.Contains(K, suffix+"{")
+			})
+		case *ssa.IndexAddr:
+			killE(f, func(K string) bool { return strings.HasSuffix(K, "]") || strings.Contains(K, "].") || strings.Contains(K, "][") })
+		case *ssa.Alloc, *ssa.Global, *ssa.FreeVar:
+			killE(f, func(K string) bool { return K == L || strings.HasPrefix(K, L+".") || strings.HasPrefix(K, L+"[") || strings.HasPrefix(K, L+"{") })
+		default:
+			// store through a computed pointer *T: only locations holding a T can change
+			want := typeStr(x.Val.Type())
+			for k := range f {
+				if strings.HasPrefix(k, "E|") {
+					parts := strings.SplitN(k, "|", 3)
+					if v := valueByName(fn, strings.TrimPrefix(parts[1], "v:")); v == nil || typeStr(v.Type()) == want {
+						delete(f, k)
+					}
+				}
+			}
+		}
 		if !isNilable(x.Val.Type()) {
 			// whole-value store (struct / array copy): fields below the target change
 			switch x.Val.Type().Underlying().(type) {
@@ -365,6 +411,8 @@ func (a *NilAnalysis) transfer(fn *ssa.Function, ins ssa.Instruction, f nilFacts
 		if isNilable(x.Value.Type()) && a.nonNil(fn, x.Value, f) {
 			f[a.key(x.Map)+"{"+idxKey(x.Key)+"}"] = true
 		}
+	case *ssa.UnOp:
+		a.loadFact(x, f)
 	case *ssa.Extract:
 		if c, ok := x.Tuple.(*ssa.Call); ok {
 			a.addRetFields(fn, c, x.Index, "v:"+x.Name(), f)
